@@ -100,7 +100,7 @@ abbrev TextOK (T : Table) (L : Ladder) (S : List (List Nat)) : Prop :=
   S.contains [40] = true ∧ S.contains [41] = true ∧ S.contains [46, 32] = true ∧
   S.contains kwIf = true ∧ S.contains kwThen = true ∧ S.contains kwElse = true ∧
   safeBeforeTerm T S [40] = true ∧
-  (∀ t ∈ S, [41].isPrefixOf t = true → t = [41] ∨ (t.drop 1).headD 0 ≠ 32 ∧ (t.drop 1).headD 0 ≠ 41) ∧
+  (∀ t ∈ S, [41].isPrefixOf t = true → t = [41] ∨ (t.drop 1).headD 0 ≠ 32 ∧ (t.drop 1).headD 0 ≠ 41 ∧ (t.drop 1).headD 0 ≠ 44) ∧
   (∀ t ∈ S, [46, 32].isPrefixOf t = true → t = [46, 32]) ∧
   (∀ t ∈ S, [46].isPrefixOf t = true → t = [46, 32] ∨ (t.drop 1).headD 0 ≠ 32) ∧
   -- operator spellings
